@@ -51,6 +51,9 @@ type appState struct {
 	// escrow address hex -> symbolic address hex ("escrow:<port>/<channel>"): the model has no SHA-256
 	escrowSym map[string]string
 	// denoms ever seen as "ibc/HASH" are printed through their trace
+	// drybegin … dryend: the operations in between run on a branch of the state that is dropped at dryend (a transaction that
+	// fails at its end, a simulation)
+	savedCtx *sdk.Context
 }
 
 func (d *driver) setup(f []string) string {
@@ -510,6 +513,11 @@ func (s *appState) op(d *driver, f []string) string {
 			return "err:hw:" + hx(err.Error())
 		}
 		return s.hw.msgLine(d, s, f[1:])
+	case "dispatchh":
+		if err := s.ensureHW(); err != nil {
+			return "err:hw:" + hx(err.Error())
+		}
+		return s.hw.dispatchLine(d, s, f[1:])
 	case "fault", "swapctl":
 		if err := s.ensureHW(); err != nil {
 			return "err:hw:" + hx(err.Error())
@@ -529,6 +537,22 @@ func (s *appState) op(d *driver, f []string) string {
 		return s.msg(d, f[1:])
 	case "msgdry":
 		return s.msgdry(d, f[1:])
+	case "drybegin":
+		if s.savedCtx != nil {
+			return "bad-op"
+		}
+		saved := s.env.Ctx
+		s.savedCtx = &saved
+		branch, _ := s.env.Ctx.CacheContext()
+		s.env.Ctx = branch
+		return "ok"
+	case "dryend":
+		if s.savedCtx == nil {
+			return "bad-op"
+		}
+		s.env.Ctx = *s.savedCtx
+		s.savedCtx = nil
+		return "ok"
 	case "msgany":
 		return s.msgAny(d, f[1:])
 	case "listrpcs":
